@@ -177,7 +177,8 @@ def eraseType (t : ITypeDef) : ITypeDef :=
 
 def eraseDirective (d : IDirectiveDef) : IDirectiveDef := { d with desc := none, args := d.args.map eraseIV }
 
-def isIntrospectionName (n : String) : Bool := n.startsWith "__"
+/-- the name starts with two underscores (written over `toList` so that the kernel can evaluate it) -/
+def isIntrospectionName (n : String) : Bool := n.toList.take 2 == ['_', '_']
 
 def isNitrogqlDirective (n : String) : Bool := n == "nitrogql_ts_type"
 
@@ -212,13 +213,17 @@ def directiveNames (s : Schema) : List String := s.directives.map (·.name)
 
 def allOpK : List OpK := [.query, .mutation, .subscription]
 
+/-- interface names that some type definition lists -/
+def ifaceNames (s : Schema) : List String := s.types.flatMap (·.interfaces)
+
 def equivB (a b : Schema) : Bool :=
   let tn := typeNames a ++ typeNames b
   let dn := directiveNames a ++ directiveNames b
+  let ins := ifaceNames a ++ ifaceNames b
   tn.all (fun n => viewType a n == viewType b n) &&
   dn.all (fun n => viewDirective a n == viewDirective b n) &&
   allOpK.all (fun k => viewRoot a k == viewRoot b k) &&
-  tn.all (fun i => tn.all fun o => implementsB a i o == implementsB b i o)
+  ins.all (fun i => tn.all fun o => implementsB a i o == implementsB b i o)
 
 /-- first difference, for diagnostics (driver only) -/
 def equivDiff (a b : Schema) : List String :=
@@ -227,6 +232,7 @@ def equivDiff (a b : Schema) : List String :=
   (tn.filter (fun n => !(viewType a n == viewType b n))).map ("type:" ++ ·) ++
   (dn.filter (fun n => !(viewDirective a n == viewDirective b n))).map ("directive:" ++ ·) ++
   (allOpK.filter (fun k => !(viewRoot a k == viewRoot b k))).map (fun k => "root:" ++ Schema.defaultRootName k) ++
-  (tn.filter (fun i => !(tn.all fun o => implementsB a i o == implementsB b i o))).map ("implementers:" ++ ·)
+  ((ifaceNames a ++ ifaceNames b).filter (fun i => !(tn.all fun o => implementsB a i o == implementsB b i o))).map
+    ("implementers:" ++ ·)
 
 end NitroVerif.SchemaIR
